@@ -29,7 +29,9 @@ func (in *Interp) probe(p Pull) {
 		return
 	}
 	saveFuel := in.fuel
+	in.shadowing = true
 	_, e, _ := p()
+	in.shadowing = false
 	if e != nil && !e.Unspec {
 		in.ReadAheadErr = true
 	}
@@ -1144,20 +1146,35 @@ func (in *Interp) multiUse(l *List, arg Value) (Value, *Err) {
 	var firstErr *Err
 	nErr := 0
 	for i, f := range fs {
-		uses := 0
+		uses, pulls := 0, 0
 		view := &List{Iter: func() Pull {
 			uses++
 			if uses > 1 {
 				return func() (Value, *Err, bool) { return nil, nil, false }
 			}
-			return l.Iter()
+			p := l.Iter()
+			return func() (Value, *Err, bool) {
+				if !in.shadowing {
+					pulls++
+				}
+				return p()
+			}
 		}}
 		v, e := in.Call(f, []Value{view})
 		if e == nil {
-			e = in.deepForce(v)
+			// results are evaluated completely before they are returned (the list can be read only once)
+			v, e = in.materialize(v)
+		}
+		if e == nil && pulls == 0 {
+			uses = 0
 		}
 		if e == nil && uses > 1 {
 			e = errf("the list handed to a multiUse function can only be used once")
+		}
+		if e == nil && uses == 0 {
+			// the implementation waits 5 s for a function that never reads its list and then fails
+			// ("iterator timed out", expected by the repository's own tests); the description does not say so
+			return nil, unspec("multiUse function that does not read the list")
 		}
 		if e != nil {
 			if e.Unspec {
@@ -1198,4 +1215,35 @@ func (in *Interp) deepForce(v Value) *Err {
 		}
 	}
 	return nil
+}
+
+// materialize replaces every list inside v by an evaluated copy.
+func (in *Interp) materialize(v Value) (Value, *Err) {
+	switch t := v.(type) {
+	case *List:
+		items, e := in.Force(t)
+		if e != nil {
+			return nil, e
+		}
+		out := make([]Value, len(items))
+		for i, it := range items {
+			if out[i], e = in.materialize(it); e != nil {
+				return nil, e
+			}
+		}
+		r := NewList(out...)
+		r.Unordered, r.Ties = t.Unordered, t.Ties
+		return r, nil
+	case *Map:
+		m := &Map{Keys: t.Keys, Unordered: t.Unordered}
+		for _, x := range t.Vals {
+			y, e := in.materialize(x)
+			if e != nil {
+				return nil, e
+			}
+			m.Vals = append(m.Vals, y)
+		}
+		return m, nil
+	}
+	return v, nil
 }
